@@ -679,8 +679,8 @@ def st_reloaded(ctx: Ctx):
 
 
 PARTS = [
-    Part("reloaded", check_reloaded, strategy=st_reloaded, quick=1200, thorough=40000),
     Part("pairs", check_pairs, strategy=st_pairs, quick=4800, thorough=300000),
     Part("xproc", check_xproc, strategy=st_xproc, quick=800, thorough=32000),
     Part("explicit_pair", check_explicit_pair),
+    Part("reloaded", check_reloaded, strategy=st_reloaded, quick=1200, thorough=40000),
 ]
